@@ -17,36 +17,60 @@
 (* never run: the set of both calls would not terminate.  A parked call    *)
 (* is in flight but holds nothing; it resumes, may take locks again, and   *)
 (* returns like any other call.                                            *)
+(*                                                                         *)
+(* Some calls call back into their environment while they run: a removal   *)
+(* is announced to the FUSE kernel (StatefulDirectoryHandle.NotifyRemoval  *)
+(* -> the notifiers registered with the handle allocator).  The kernel     *)
+(* needs the inode lock of the directory the notification is about, which  *)
+(* a LOOKUP in that directory holds until the server has answered it, and  *)
+(* the server answers under the mutex of the directory.  So the            *)
+(* environment's step needs that mutex to be free: a call that notifies    *)
+(* while it holds it waits for the kernel, the kernel for the LOOKUP, the  *)
+(* LOOKUP for the call.                                                    *)
 (***************************************************************************)
 EXTENDS Sequences, FiniteSets, Naturals
 
 CONSTANTS LockIds,     \* abstract locks a call may take
-          MaxParked    \* bound of the model checker on calls parked at once
+          MaxParked,   \* bound of the model checker on calls parked at once
+          NoLock       \* "no callback in progress"
 
 VARIABLES phase,       \* "idle" | "running": the call that is executing
           held,        \* locks held by the call in progress
-          parked       \* number of calls in flight that wait for another call
+          parked,      \* number of calls in flight that wait for another call
+          cb           \* the lock the environment needs to finish the callback
+                       \* the running call is making, or NoLock
 
-bvars == <<phase, held, parked>>
+bvars == <<phase, held, parked, cb>>
 
-BInit == phase = "idle" /\ held = {} /\ parked = 0
+BInit == phase = "idle" /\ held = {} /\ parked = 0 /\ cb = NoLock
 
-Enter   == phase = "idle" /\ phase' = "running" /\ UNCHANGED <<held, parked>>
-Acquire == phase = "running" /\ \E k \in LockIds \ held : held' = held \cup {k} /\ UNCHANGED <<phase, parked>>
-Release == phase = "running" /\ \E k \in held : held' = held \ {k} /\ UNCHANGED <<phase, parked>>
+Enter   == phase = "idle" /\ phase' = "running" /\ UNCHANGED <<held, parked, cb>>
+Acquire == phase = "running" /\ cb = NoLock /\ \E k \in LockIds \ held : held' = held \cup {k} /\ UNCHANGED <<phase, parked, cb>>
+Release == phase = "running" /\ cb = NoLock /\ \E k \in held : held' = held \ {k} /\ UNCHANGED <<phase, parked, cb>>
+\* The call hands control to its environment, which needs lock k (the
+\* mutex of the directory a removal notification is about).  A correct
+\* component does that only after releasing k.
+Callback == phase = "running" /\ cb = NoLock /\ \E k \in LockIds \ held : cb' = k /\ UNCHANGED <<phase, held, parked>>
+\* The environment's step: possible only while that lock is free.
+EnvStep  == cb # NoLock /\ cb \notin held /\ cb' = NoLock /\ UNCHANGED <<phase, held, parked>>
 \* A correct component returns only after releasing everything ("defer
 \* UnlockAll()", or an Unlock() on every path).
-Return  == phase = "running" /\ held = {} /\ phase' = "idle" /\ UNCHANGED <<held, parked>>
+Return  == phase = "running" /\ cb = NoLock /\ held = {} /\ phase' = "idle" /\ UNCHANGED <<held, parked, cb>>
 \* ... and starts to wait for another call only empty handed.
-Park    == phase = "running" /\ held = {} /\ parked < MaxParked /\ phase' = "idle" /\ parked' = parked + 1 /\ UNCHANGED held
-Resume  == phase = "idle" /\ parked > 0 /\ phase' = "running" /\ parked' = parked - 1 /\ UNCHANGED held
+Park    == phase = "running" /\ cb = NoLock /\ held = {} /\ parked < MaxParked /\ phase' = "idle" /\ parked' = parked + 1 /\ UNCHANGED <<held, cb>>
+Resume  == phase = "idle" /\ parked > 0 /\ phase' = "running" /\ parked' = parked - 1 /\ UNCHANGED <<held, cb>>
 
-BNext == Enter \/ Acquire \/ Release \/ Return \/ Park \/ Resume
+BNext == Enter \/ Acquire \/ Release \/ Return \/ Park \/ Resume \/ Callback \/ EnvStep
 BSpec == BInit /\ [][BNext]_bvars
 
 \* The property: at every call boundary nothing is held, also when the
 \* boundary is "the call waits for another call".
 C14_Balance == phase = "idle" => held = {}
+
+\* ... and whenever the environment has to act for the call, the lock it
+\* needs is free: the callback can always finish (no call waits for its
+\* own environment).
+C14_CallbackCanFinish == cb # NoLock => cb \notin held
 
 \* The judgement of one observed call return.
 BalanceVerdict(call, outcome, locksFree) ==
@@ -134,6 +158,7 @@ Expected == {
   "dir/VirtualSetAttributes/OK",
   "dir/concurrent-calls/quiescent",
   "dir/fixture/ok",
+  "env/removal-notification/delivered",
   "file/FrozenFile.Close/ok",
   "file/FrozenFile.GetNextRegionOffset/error",
   "file/FrozenFile.GetNextRegionOffset/ok",
